@@ -82,16 +82,18 @@ def max_arg(e) -> int:
     return max(max_arg(x) for x in e[1:])
 
 
-def src_def(name: str, e, arity: int, argnames=None) -> str:
+def src_def(name: str, e, arity: int, argnames=None, unwrap=()) -> str:
     argnames = argnames or [f"a{i}" for i in range(arity)]
-    return f"def {name}({', '.join(argnames)}):\n    return {src_expr(e, argnames)}\n"
+    # arguments that are data sets arrive as one-element pandas Series: read their value
+    pre = "".join(f"    {argnames[i]} = float({argnames[i]}.iloc[0])\n" for i in unwrap)
+    return f"def {name}({', '.join(argnames)}):\n{pre}    return {src_expr(e, argnames)}\n"
 
 
-def compile_fn(e, arity: int, name: str | None = None, argnames=None):
+def compile_fn(e, arity: int, name: str | None = None, argnames=None, unwrap=()):
     """A real Python function computing `e`; source is registered with linecache so
     `inspect.getsource` works."""
     name = name or f"f{next(_counter)}"
-    src = src_def(name, e, arity, argnames)
+    src = src_def(name, e, arity, argnames, unwrap)
     filename = f"<mxlverif-{name}-{next(_counter)}>"
     linecache.cache[filename] = (len(src), None, src.splitlines(True), filename)
     ns: dict = {}
@@ -101,12 +103,13 @@ def compile_fn(e, arity: int, name: str | None = None, argnames=None):
     return fn
 
 
-def compile_multi(es, arity: int, name: str | None = None):
+def compile_multi(es, arity: int, name: str | None = None, unwrap=()):
     """surrogate function returning a tuple"""
     name = name or f"s{next(_counter)}"
     argnames = [f"a{i}" for i in range(arity)]
     body = ", ".join(src_expr(e, argnames) for e in es)
-    src = f"def {name}({', '.join(argnames)}):\n    return ({body},)\n"
+    pre = "".join(f"    {argnames[i]} = float({argnames[i]}.iloc[0])\n" for i in unwrap)
+    src = f"def {name}({', '.join(argnames)}):\n{pre}    return ({body},)\n"
     ns: dict = {}
     exec(compile(src, f"<mxlverif-{name}>", "exec"), ns)  # noqa: S102
     return ns[name]
